@@ -111,9 +111,12 @@ _add("SmVerif.Tie.Props2", "RsDecoder", [_P + n for n in [
 _add("SmVerif.Tie.Props3", "RsSerialize", [_P + n for n in
     "emit_bytes emit_lines rmiTail_pieces gen_serialisers gen_c01_mappings_roundtrip gen_c01_mappings_roundtrip_self gen_c01_mappings_roundtrip_raw gen_c07_flags_roundtrip gen_c01_idempotent gen_c03_spec_reads_encoder".split()])
 
+_add("SmVerif.Tie.DecodeCommon", "RsDecodeCommon", [_T + "DecodeCommon." + n for n in
+    "tie_decode_common gen_c02_kind_index gen_c02_kind_hermes gen_c02_kind_regular gen_c02_kind_error".split()])
+
 PROP_MODULES = {
     "C01": ["SmVerif.Tie.Vlq", "SmVerif.Tie.Decode", "SmVerif.Tie.Serialize", "SmVerif.Tie.Props3"],
-    "C02": ["SmVerif.Tie.Vlq", "SmVerif.Tie.Decode", "SmVerif.Tie.Props", "SmVerif.Tie.Prefix"],
+    "C02": ["SmVerif.Tie.Vlq", "SmVerif.Tie.Decode", "SmVerif.Tie.Props", "SmVerif.Tie.Prefix", "SmVerif.Tie.DecodeCommon"],
     "C03": ["SmVerif.Tie.Vlq", "SmVerif.Tie.Serialize", "SmVerif.Tie.Props3"],
     "C04": ["SmVerif.Tie.Lookup", "SmVerif.Tie.Props", "SmVerif.Tie.Index"],
     "C05": ["SmVerif.Tie.Vlq", "SmVerif.Tie.Header", "SmVerif.Tie.Decode", "SmVerif.Tie.Lookup", "SmVerif.Tie.Hermes", "SmVerif.Tie.Serialize", "SmVerif.Tie.Props", "SmVerif.Tie.SourceView", "SmVerif.Tie.Detect", "SmVerif.Tie.RamBundle", "SmVerif.Tie.JsIdent", "SmVerif.Tie.Reader", "SmVerif.Tie.Index", "SmVerif.Tie.Adjust", "SmVerif.Tie.HermesDecode", "SmVerif.Tie.GetLine", "SmVerif.Tie.Flatten", "SmVerif.Tie.Rewrite", "SmVerif.Tie.RevIter"],
